@@ -645,7 +645,9 @@ def BCond.cv (T : BoolTable) : BCond → CVal
   | .not b => ⟨.null, [(b.cv T).ext.invert]⟩
   | .and bs =>
     ⟨AC.mkAnd (BCond.extL T bs).reverse,
-     if T.andValueLeaks then BCond.flatL T bs else (BCond.flatL T bs).map fun _ => .null⟩
+     -- without the leak the member values are stripped of their constraints: whatever their number, they all
+     -- get the one annotation of the whole value when spliced into a union, and `make` keeps one copy of it
+     if T.andValueLeaks then BCond.flatL T bs else [.null]⟩
   | .or bs => ⟨.null, BCond.flatL T bs⟩
 def BCond.extL (T : BoolTable) : List BCond → List AC
   | [] => []
